@@ -90,10 +90,10 @@ struct Worst {
 
 // returns true when got is acceptable
 static bool close_enough(double got, const Acc& a, int fam, Worst& w) {
-  const ld u = ldexpl(1.0L, -53);
+  static const ld u = ldexpl(1.0L, -53), u63 = ldexpl(1.0L, -63);
   const ld gamma = 2.0L * a.terms + 4.0L;
   const ld tol_stmt = gamma * u * a.S;
-  const ld tol = tol_stmt + (ld)(a.terms + 2) * ldexpl(1.0L, -63) * a.S;
+  const ld tol = tol_stmt + (ld)(a.terms + 2) * u63 * a.S;
   if (!std::isfinite(got)) return false;
   const ld err = fabsl((ld)got - a.v);
   if (!(err <= tol)) return false;
@@ -155,7 +155,7 @@ static void gen_bits(double* p, size_t n, Rng& r, int fam) {
   }
   for (size_t i = 0; i < n; ++i) {
     uint64_t x = r.next();
-    uint64_t e = 1 + (x >> 52 & 0x7FF) % 2046;  // 1..2046: finite, normal
+    uint64_t e = 1 + (((x >> 52 & 0x7FF) * 2046) >> 11);  // 1..2046: finite, normal
     x = (x & 0x800FFFFFFFFFFFFFull) | (e << 52);
     if (fam == 2 && (x & 7) == 0) x &= 0x8000000000000000ull;  // +-0
     memcpy(&p[i], &x, 8);
@@ -169,6 +169,20 @@ static bool same_bits(const double* a, const double* b, size_t n, size_t* idx) {
       return false;
     }
   return true;
+}
+// snapshot hash of const operands (word-wise: fnv1a byte-wise costs more than the kernels on 8 MB operands)
+static uint64_t snap(const void* p, size_t n) {
+  const uint8_t* c = (const uint8_t*)p;
+  uint64_t h = 0x243F6A8885A308D3ull ^ n;
+  size_t i = 0;
+  for (; i + 8 <= n; i += 8) {
+    uint64_t w;
+    memcpy(&w, c + i, 8);
+    h = (h ^ w) * 0x9E3779B97F4A7C15ull;
+    h ^= h >> 29;
+  }
+  if (i < n) h = vh::fnv1a(c + i, n - i, h);
+  return h;
 }
 static bool any_nonzero(const double* p, size_t n) {
   for (size_t i = 0; i < n; ++i)
@@ -249,7 +263,7 @@ static void run_extract(const FieldIdx& A, Ctx& c) {
   gen_bits(vec, 2 * m, r, vfam);
   gen_bits(srcc, SRCC.len / 8, r, vfam);
   gen_bits(srcs, SRCS.len / 8, r, vfam);
-  const uint64_t hvec = hash_bytes(vec, VEC.len), hc = hash_bytes(srcc, SRCC.len), hs = hash_bytes(srcs, SRCS.len);
+  const uint64_t hvec = snap(vec, VEC.len), hc = snap(srcc, SRCC.len), hs = snap(srcs, SRCS.len);
   std::vector<double> before(2 * m), expect(2 * m), tmp8(8);
 
   c.notef("extract/save m=%llu nrows=%llu sl=%llu blocks=%zu (max %llu) extract=%s save=%s vfam=%d prefill=%d", (unsigned long long)m,
@@ -280,7 +294,7 @@ static void run_extract(const FieldIdx& A, Ctx& c) {
     Arena::fill(DSTV.p, DSTV.len, prefill, seed + 11 + b);
     memcpy(before.data(), dstv, 2 * m * 8);
     gen_bits(blkd, 8, r, vfam ? vfam : 1);
-    const uint64_t hb = hash_bytes(blkd, 64);
+    const uint64_t hb = snap(blkd, 64);
     sav(m, b, dstv, blkd);
     expect = before;
     for (int t = 0; t < 4; ++t) expect[4 * b + t] = blkd[t], expect[m + 4 * b + t] = blkd[4 + t];
@@ -291,7 +305,7 @@ static void run_extract(const FieldIdx& A, Ctx& c) {
                      target ? "target double of the block" : "double outside the block must stay unchanged", blkd[0], blkd[1], blkd[2], blkd[3],
                      blkd[4], blkd[5], blkd[6], blkd[7]);
     }
-    if (hash_bytes(blkd, 64) != hb) return c.failf("reim4_save_1blk_to_reim_%s modified its source block", ss);
+    if (snap(blkd, 64) != hb) return c.failf("reim4_save_1blk_to_reim_%s modified its source block", ss);
     // ---- extract∘save
     ex1(m, b, tmp8.data(), dstv);
     if (!same_bits(tmp8.data(), blkd, 8, &idx))
@@ -320,7 +334,7 @@ static void run_extract(const FieldIdx& A, Ctx& c) {
                          ds[8 * i + t], (unsigned long long)si, srcs[si]);
       }
   }
-  if (hash_bytes(vec, VEC.len) != hvec || hash_bytes(srcc, SRCC.len) != hc || hash_bytes(srcs, SRCS.len) != hs)
+  if (snap(vec, VEC.len) != hvec || snap(srcc, SRCC.len) != hc || snap(srcs, SRCS.len) != hs)
     return c.failf("an extraction kernel (%s) modified its source vector (m=%llu)", xs, (unsigned long long)m);
   if (ar.check_canaries() >= 0)
     return c.failf("extract_%s/save_%s wrote outside its destination (m=%llu nrows=%llu sl=%llu)", xs, ss, (unsigned long long)m,
@@ -417,7 +431,7 @@ static void run_convert(const FieldIdx& A, Ctx& c) {
   Buf Z = ar.alloc(B, amode(r), amis(r), p1 + 2, seed + 3);
   double *x = X.as<double>(), *y1 = Y1.as<double>(), *y2 = Y2.as<double>(), *z = Z.as<double>();
   gen_bits(x, 2 * m, r, vfam);
-  const uint64_t hx = hash_bytes(x, B);
+  const uint64_t hx = snap(x, B);
   size_t idx;
   c.notef("reim4_from_cplx%s / reim4_to_cplx%s m=%llu vfam=%d prefills=%d,%d", centry_name[fe], centry_name[te], (unsigned long long)m, vfam, p1, p2);
 
@@ -428,14 +442,14 @@ static void run_convert(const FieldIdx& A, Ctx& c) {
     return c.failf("reim4_from_cplx%s m=%llu: output double %zu (block %zu) depends on the previous contents of the destination (%a vs %a): not every "
                    "output is written",
                    centry_name[fe], (unsigned long long)m, idx, idx / 8, y1[idx], y2[idx]);
-  if (hash_bytes(x, B) != hx) return c.failf("reim4_from_cplx%s modified its input", centry_name[fe]);
+  if (snap(x, B) != hx) return c.failf("reim4_from_cplx%s modified its input", centry_name[fe]);
   // (2) to_cplx(from_cplx(x)) == x on all m numbers
-  const uint64_t hy = hash_bytes(y1, B);
+  const uint64_t hy = snap(y1, B);
   call_to_cplx(te, (uint32_t)m, z, y1);
   if (!same_bits(z, x, 2 * m, &idx))
     return c.failf("reim4_to_cplx%s(reim4_from_cplx%s(x)) != x: m=%llu complex number %zu %s part: got %a, expected %a", centry_name[te],
                    centry_name[fe], (unsigned long long)m, idx / 2, idx & 1 ? "imaginary" : "real", z[idx], x[idx]);
-  if (hash_bytes(y1, B) != hy) return c.failf("reim4_to_cplx%s modified its input", centry_name[te]);
+  if (snap(y1, B) != hy) return c.failf("reim4_to_cplx%s modified its input", centry_name[te]);
   // (3) from_cplx(to_cplx(y)) == y for an arbitrary reim4 vector y; to_cplx writes every output double
   gen_bits(y1, 2 * m, r, vfam ? vfam : 1);
   Arena::fill(Z.p, B, p1, seed + 4);
@@ -506,7 +520,7 @@ static void run_dot(const FieldIdx& A, Ctx& c) {
       for (int t = 0; t < 16; ++t) v2[16 * (i + 1) + t] = -v2[16 * i + t];
     }
   }
-  const uint64_t hu = hash_bytes(u, U.len), h1 = hash_bytes(v1, V1.len), h2 = hash_bytes(v2, V2.len);
+  const uint64_t hu = snap(u, U.len), h1 = snap(v1, V1.len), h2 = snap(v2, V2.len);
   // oracle
   CAcc e1[4], e2[2][4];
   for (uint64_t i = 0; i < nrows; ++i)
@@ -543,7 +557,7 @@ static void run_dot(const FieldIdx& A, Ctx& c) {
     }
     c.cls(std::string("dot:") + vs);
   }
-  if (hash_bytes(u, U.len) != hu || hash_bytes(v1, V1.len) != h1 || hash_bytes(v2, V2.len) != h2)
+  if (snap(u, U.len) != hu || snap(v1, V1.len) != h1 || snap(v2, V2.len) != h2)
     return c.failf("a reim4 dot product modified its inputs (nrows=%llu)", (unsigned long long)nrows);
   if (ar.check_canaries() >= 0) return c.failf("a reim4 dot product wrote outside dst (nrows=%llu)", (unsigned long long)nrows);
   ratio_class(c, F_DOT1, w1);
@@ -748,7 +762,7 @@ static void run_pointwise(const FieldIdx& A, Ctx& c) {
       gen_vec(r0.data(), 2 * m, r, vfam);
     memcpy(res, r0.data(), B);
   }
-  const uint64_t ha = hash_bytes(a, B), hb = hash_bytes(b, B);
+  const uint64_t ha = snap(a, B), hb = snap(b, B);
   c.notef("%s m=%llu vfam=%s prefill=%d", kname.c_str(), (unsigned long long)m, vfam_name[vfam], prefill);
   call_pointwise(layout, addmul, e, (uint32_t)m, res, a, b);
   Worst w;
@@ -767,7 +781,7 @@ static void run_pointwise(const FieldIdx& A, Ctx& c) {
                      bad_re ? res[ri] : res[ii], bad_re ? ex.re.v : ex.im.v, bad_re ? ex.re.S : ex.im.S, 2 * (bad_re ? ex.re.terms : ex.im.terms) + 4);
     }
   }
-  if (hash_bytes(a, B) != ha || hash_bytes(b, B) != hb) return c.failf("%s modified an input operand (m=%llu)", kname.c_str(), (unsigned long long)m);
+  if (snap(a, B) != ha || snap(b, B) != hb) return c.failf("%s modified an input operand (m=%llu)", kname.c_str(), (unsigned long long)m);
   if (ar.check_canaries() >= 0) return c.failf("%s wrote outside the 2m doubles of r (m=%llu)", kname.c_str(), (unsigned long long)m);
   ratio_class(c, fam, w);
   c.nontrivial = nz;
@@ -797,7 +811,7 @@ static void run_convolution(const FieldIdx& A, Ctx& c) {
   gen_vec(b, sizeb * 8, r, vfam);
   if (vfam == V_CANCEL && sizea >= 2 && sizeb >= 2)  // a[1]=a[0], b[1]=-b[0]: coefficient 1 cancels exactly
     for (int t = 0; t < 8; ++t) a[8 + t] = a[t], b[8 + t] = -b[t];
-  const uint64_t ha = hash_bytes(a, Aa.len), hb = hash_bytes(b, Bb.len);
+  const uint64_t ha = snap(a, Aa.len), hb = snap(b, Bb.len);
   static const char* fname[] = {"reim4_convolution_1coeff_ref", "reim4_convolution_2coeff_ref", "reim4_convolution_ref"};
   c.notef("%s dest_size=%llu offset=%llu sizea=%llu sizeb=%llu vfam=%s", fname[fn], (unsigned long long)dest_size, (unsigned long long)offset,
           (unsigned long long)sizea, (unsigned long long)sizeb, vfam_name[vfam]);
@@ -833,7 +847,7 @@ static void run_convolution(const FieldIdx& A, Ctx& c) {
                        (unsigned long long)k, x.S, 2 * x.terms + 4);
     }
   }
-  if (hash_bytes(a, Aa.len) != ha || hash_bytes(b, Bb.len) != hb) return c.failf("%s modified an input", fname[fn]);
+  if (snap(a, Aa.len) != ha || snap(b, Bb.len) != hb) return c.failf("%s modified an input", fname[fn]);
   if (ar.check_canaries() >= 0) return c.failf("%s wrote outside dest (dest_size=%llu)", fname[fn], (unsigned long long)dest_size);
   ratio_class(c, F_CONV, w);
   c.nontrivial = maxpairs >= 2 && any_nonzero(a, sizea * 8) && any_nonzero(b, sizeb * 8);
